@@ -170,6 +170,22 @@ func c14Gen(c *Ctx) *c14Scenario {
 		}
 		sc.Ops = append(sc.Ops, c14Op{Kind: "patchTemplate", ID: "T1", Script: 1 + g.Intn(4)})
 	}
+	// one case in twelve opens with a task that is moved from one template to another, followed by an update of either
+	if len(sc.Ops) == 0 && g.Chance(1, 12) {
+		tmplHeavy = true
+		from, to := "T1", "T1x"
+		if g.Bool() {
+			from, to = to, from
+		}
+		sc.Ops = append(sc.Ops,
+			c14Op{Kind: "createTemplate", ID: from, Script: 1 + g.Intn(2)},
+			c14Op{Kind: "createTemplate", ID: to, Script: 1 + g.Intn(2)},
+			c14Op{Kind: "createTask", ID: "t1", Template: from, DBRP: "db", Status: []string{"enabled", "disabled"}[g.Intn(2)]},
+			c14Op{Kind: "createTask", ID: "t3", Template: to, DBRP: "db", Status: "disabled"},
+			c14Op{Kind: "patchTask", ID: "t1", Template: to},
+			c14Op{Kind: "patchTemplate", ID: []string{to, to, from}[g.Intn(3)], Script: 1 + g.Intn(4)},
+		)
+	}
 	for i := 0; i < n; i++ {
 		var op c14Op
 		k := g.Intn(12)
@@ -230,9 +246,9 @@ func c14Gen(c *Ctx) *c14Scenario {
 			op = c14Op{Kind: "restart"}
 			if tmplHeavy && g.Bool() {
 				op = c14Op{Kind: "patchTemplate", ID: g.Pick(c14TmplIDs), Script: 1 + g.Intn(6)}
-			if g.Chance(1, 5) {
-				op.NewID = g.Pick(c14TmplIDs) // the template is renamed (to the other id, or "to itself")
-			}
+				if g.Chance(1, 5) {
+					op.NewID = g.Pick(c14TmplIDs) // the template is renamed (to the other id, or "to itself")
+				}
 			}
 		default:
 			op = c14Op{Kind: "write"}
@@ -741,17 +757,18 @@ func c14Request(d *harness.Daemon, op c14Op) (int, string) {
 }
 
 type c14Life struct {
-	res      *simrt.Result
-	verdict  Verdict
-	done     int // ops acknowledged (index of the op in flight at a crash)
-	model    *c14Model
-	copyPath string
-	path     string
-	bounds   int
-	writes   int
-	injected bool
-	opWrites []int // storage writes (Put/Delete/Commit) issued during each request
-	opOK     []bool
+	afterCrashUnion bool // catalogue/differs-after-crash: every task of the catalogue before and after the request in flight is shown
+	res             *simrt.Result
+	verdict         Verdict
+	done            int // ops acknowledged (index of the op in flight at a crash)
+	model           *c14Model
+	copyPath        string
+	path            string
+	bounds          int
+	writes          int
+	injected        bool
+	opWrites        []int // storage writes (Put/Delete/Commit) issued during each request
+	opOK            []bool
 }
 
 // c14Run executes ops[from:] on a daemon opened on path. crashAt / failWriteAt as in SimStorage. model is the catalogue before ops[from].
@@ -808,6 +825,17 @@ func c14Run(c *Ctx, sc *c14Scenario, cfg simrt.Config, path string, from int, mo
 					if alt != nil {
 						detail += "\nor, if the request in flight at the crash applied,\n  " + alt.describe()
 						cls = "catalogue/differs-after-crash"
+						// what the API shows: the tasks of before and of after the request side by side (both ids of a rename,
+						// say), or something else (a task missing altogether)?
+						union := true
+						for _, m := range []*c14Model{life.model, alt} {
+							for id := range m.Tasks {
+								if !strings.Contains(got, id+"{") {
+									union = false
+								}
+							}
+						}
+						life.afterCrashUnion = union
 					}
 					life.verdict = Fail(cls, "%s", detail)
 					return false
@@ -1210,6 +1238,9 @@ func runC14(c *Ctx) Verdict {
 		if l2.verdict.Class != "" {
 			l2.verdict.Detail = fmt.Sprintf("[crash at storage boundary %d of %d, during op #%d %+v] ", b, base.bounds, l1.done, inflight) + l2.verdict.Detail
 			l2.verdict.Shape = shape
+			if l2.verdict.Class == "catalogue/differs-after-crash" {
+				shape["shows_the_tasks_of_before_and_after_side_by_side"] = l2.afterCrashUnion
+			}
 			if c.Report(l2.verdict) {
 				return l2.verdict
 			}
@@ -1231,7 +1262,7 @@ func init() {
 		ID:  "C14",
 		Run: runC14,
 		Rule: "case = a history of 3-12/25 API requests (create task from a script or a template, patch script/status/id/template/vars/dbrps, delete, create and patch templates; valid and deliberately rejected ones, template updates that fail on one of their tasks, definitions whose start fails, a definition whose running pipeline fails on certain data (written by a 'boom' operation), some requests issued back to back) over 4 task ids and 2 template ids (one id a prefix of another in both sets), template deletion, interleaved with clean restarts and data writes, issued against the real HTTP handler; after every acknowledged request and every restart the catalogue read through GET /tasks, /tasks/<id> and /templates is compared with a reference catalogue, and executing with enabled; the history is then re-executed with an injected failure at up to 8 underlying storage writes inside accepted template updates, and with a crash at up to 8 storage transaction boundaries followed by a restart on a byte copy of the Bolt file and the rest of the history; " +
-			"a fifth of the template updates also give the template another id (taken ids are refused; its tasks follow it); (round 3) one opening in ten deletes a template and creates it again while tasks still name it, followed by a (often rejected) request on one of them and an update of the new template; one case in 120 instead defines 195-330 tasks (a sixteenth enabled, some at the end of the id order), reads the listing page by page (page 7-100), restarts cleanly and requires every enabled task to execute again; " +
+			"one opening in twelve moves a task from one template to another and then updates one of the two; a fifth of the template updates also give the template another id (taken ids are refused; its tasks follow it); (round 3) one opening in ten deletes a template and creates it again while tasks still name it, followed by a (often rejected) request on one of them and an update of the new template; one case in 120 instead defines 195-330 tasks (a sixteenth enabled, some at the end of the id order), reads the listing page by page (page 7-100), restarts cleanly and requires every enabled task to execute again; " +
 			"non-trivial = every case; distinct = distinct (scenario, interleaving signatures) tuples",
 		Real:        []string{"services/task_store Service (Open, HTTP handlers, DAOs, updateAllAssociatedTasks, startTask watcher)", "services/storage IndexedStore + Bolt adapter + real bbolt file", "services/httpd Handler routing", "TaskMaster (StartTask/StopTask/DeleteTask), pipeline construction, tick parser/evaluator/formatter"},
 		Stub:        []string{"harness StorageService wrapper: crash = abandon the world at a transaction boundary + byte copy; failing Put/Delete/Commit", "server.Server wiring replaced by the harness (storage, alert, task master, task store opened in server order)"},
